@@ -72,13 +72,16 @@ class Leaf(KDDataset):
         return ("y", self.tag, i)
 
     def conf_of(self, i):
-        """a non-integer per-sample item (confidence / weight), exactly representable in float32"""
-        return (sum(map(ord, str(self.tag))) % 64) * 128 + i + 0.5
+        """a non-integer per-sample item (confidence / weight / timestamp) held as a python float (double precision)"""
+        return (sum(map(ord, str(self.tag))) % 64) * 128 + i + 0.1   # float64; NOT exactly representable in float32
 
     def getitem_conf(self, idx, ctx=None):
         i = self._norm(idx)
         self.log.append(("conf", self.tag, i, id(ctx) if ctx is not None else None))
         return self.conf_of(i)
+
+    def getall_conf(self):
+        return [self.conf_of(i) for i in range(self.n)]
 
     def getall_class(self):
         if self.getall_kind == "list":
@@ -105,6 +108,18 @@ class Leaf(KDDataset):
 
 class PassWrapper(KDWrapper):
     """KDWrapper that overrides nothing (pure delegation through __getattr__)"""
+
+
+class DisposeWrapper(KDWrapper):
+    """KDWrapper with resources of its own: counts how often its dispose() is reached, then passes the call on"""
+
+    def __init__(self, dataset):
+        super().__init__(dataset=dataset)
+        self.own_disposed = 0
+
+    def dispose(self):
+        self.own_disposed += 1
+        self.dataset.dispose()
 
 
 class TagWrapper(KDWrapper):
